@@ -1,4 +1,4 @@
-import SafeNet.Proofs.StoreViews
+import SafeNet.Proofs.StoreCap
 /-!
 # C10 — store capacity, distance-based eviction and quoting metrics are exact
 
@@ -308,6 +308,52 @@ theorem capacityBound_false : ¬ CapacityBound := by
   rw [w.2.2] at this
   exact absurd this (by decide)
 
+/-- **Capacity bound (partial).** Missing hypothesis of the full statement: every put happens with no
+write or notification in flight (each accepted put is acknowledged before the next put) and the node is
+not restarted. Then listed records plus writes/notifications in flight never exceed
+`max max_records 1`, in every state of the history. -/
+theorem capacity_bound_partial (cfg : Cfg) (dist : Nat → Nat) (inj : Injective dist) (ops : List Op)
+    (h : AckBeforePut cfg dist (init cfg dist) ops) :
+    (run cfg dist ops).index.length + inflight (run cfg dist ops) ≤ max cfg.maxRecords 1 :=
+  CapInv.runFrom inj ops (Views.init cfg inj) (CapInv.init cfg dist) h
+
+/-- non-vacuity: an acknowledged history that reaches capacity and evicts -/
+example : AckBeforePut (Cfg.shipped 1 2) (fun k => k) (init (Cfg.shipped 1 2) (fun k => k))
+    [.run 0, .put 5 3 .chunk, .run 1, .deliver 1, .put 2 6 .chunk, .run 2, .run 3, .deliver 3, .put 9 9 .chunk] := by
+  simp only [AckBeforePut]
+  decide
+
+/-- The unrestricted decision statement (no cache-miss hypothesis): at capacity a put of an unlisted key
+farther than the farthest listed key is refused. -/
+def RefusedWhenFarther : Prop :=
+  ∀ (cfg : Cfg) (dist : Nat → Nat) (ops : List Op) (k v : Nat) (rt : RType) (f fd : Nat), Injective dist →
+    cfg.maxRecords ≤ (run cfg dist ops).index.length → (run cfg dist ops).farthest = some (f, fd) →
+    dist f < dist k → (putVerified cfg dist (run cfg dist ops) k v rt).2 = .maxRecords
+
+def reputOps : List Op :=
+  [.run 0, .put 1 3 .chunk, .run 1, .deliver 1,    -- capacity 1 reached with the near key 1
+   .put 2 6 .chunk]                                -- key 2 is farther: refused, but stays in the cache
+
+/-- **K-u.** A refused record stays in the FIFO cache; putting the same record again returns `Ok(())`
+through the cache-equality early return although nothing is stored or scheduled; after two more
+(refused) puts it has left the cache: an accepted put that is neither listed nor readable, with
+nothing in flight. -/
+theorem refused_reput_accepted_witness :
+    let cfg := Cfg.shipped 1 2
+    let s := run cfg (fun k => k) reputOps
+    let r := putVerified cfg (fun k => k) s 2 6 .chunk
+    let s' := runFrom cfg (fun k => k) r.1 [.put 3 9 .chunk, .put 4 12 .chunk]
+    (step cfg (fun k => k) (run cfg (fun k => k) (reputOps.dropLast)) (.put 2 6 .chunk)).2 = .put .maxRecords ∧
+    r.2 = .dedup ∧ get cfg r.1 2 = some (.whole 6) ∧ contains r.1 2 = false ∧
+    s'.tasks = [] ∧ s'.notes = [] ∧ get cfg s' 2 = none ∧ contains s' 2 = false := by
+  decide
+
+theorem refusedWhenFarther_false : ¬ RefusedWhenFarther := by
+  intro h
+  have := h (Cfg.shipped 1 2) (fun k => k) reputOps 2 6 .chunk 1 1 (fun a b e => e) (by decide) (by decide) (by decide)
+  revert this
+  decide
+
 /-- regenerated operators and constants the statements above were proved against -/
 example : Gen.Store.pruneRefuseStrict = true ∧ Gen.Store.farthestUpdateStrict = true ∧
     Gen.Store.withinRangeExclusive = true ∧ Gen.Store.cleanupFromInclusive = true ∧
@@ -320,6 +366,9 @@ example : Gen.Store.pruneRefuseStrict = true ∧ Gen.Store.farthestUpdateStrict 
 #print axioms SafeNet.Props.C10.metrics_exact
 #print axioms SafeNet.Props.C10.payments_exact
 #print axioms SafeNet.Props.C10.payments_survive_restart
+#print axioms SafeNet.Props.C10.capacity_bound_partial
+#print axioms SafeNet.Props.C10.refused_reput_accepted_witness
+#print axioms SafeNet.Props.C10.refusedWhenFarther_false
 #print axioms SafeNet.Props.C10.capacity_overrun_witness
 #print axioms SafeNet.Props.C10.capacityBound_false
 end SafeNet.Props.C10
